@@ -311,12 +311,83 @@ def check_template_body(run, rng, quick):
                                      {"text": texts[b]}, impl_out=outs[b])
 
 
+# ---------------------------------------------------------------- the flat fragment: the rule of Model/FlatCall.v against Wtp.expand
+FLAT_TEXT = ["a", "b ", " c", "x\n", "\n", "*", "#", ":", ";", "=", "-", "1", " ", "it", "{|", "."]
+FLAT_KEYS = ["1", "2", "3", "k", "q", "a b", " 1 ", "01", " k ", "K", "10"]
+FLAT_DEFAULTS = ["", "d", " d ", "d\n", "x=y", "*"]
+FLAT_ARGS = ["x", " x ", "x\n", "\nx", "a=b", " k = v ", "2=w", "k=z", "1=", "=v", "", "   ", "01=q", "k=x\n", "q= \n", "K=u",
+             "a b=c", "a  b = c", "3=t\n", "*", "y", "10=ten", "0=z", "-1=m"]
+
+
+def gen_flat(rng):
+    name = rng.choice(["s", "b", "Tq", "x y", "zz", "s"])
+    call = name if rng.random() < 0.8 else rng.choice([name[0].lower() + name[1:], name.replace(" ", "_"), " " + name + " "])
+    present = rng.random() < 0.88
+    parts = []
+    for _ in range(rng.randint(0, 6)):
+        r = rng.random()
+        if r < 0.5:
+            parts.append(rng.choice(FLAT_TEXT))
+        elif r < 0.8:
+            parts.append("{{{%s}}}" % rng.choice(FLAT_KEYS))
+        else:
+            parts.append("{{{%s|%s}}}" % (rng.choice(FLAT_KEYS), rng.choice(FLAT_DEFAULTS)))
+    body = "".join(parts)
+    args = [rng.choice(FLAT_ARGS) for _ in range(rng.randint(0, 5))]
+    page = "{{" + "|".join([call] + args) + "}}"
+    return {"lib": [[name, body, False]] if present else [], "page": page, "opts": {}, "title": "Tt"}
+
+
+def flat_rule(run, quick):
+    """Wtp.expand on flat calls against the fuel-free rule Model.FlatCall.result_of (which c04_flat_calls_follow_the_transclusion_rule
+    proves the expander model computes)."""
+    rng = run.rng
+    cases = [gen_flat(rng) for _ in range(700 if quick else 15000)]
+    res = lib.run_impl("expandlib", cases, shards=lib.NCPU)
+    coq_cases, idx = [], []
+    for i, (c, r) in enumerate(zip(cases, res)):
+        run.count({"flat": c["lib"], "page": c["page"]}, c["page"].count("|") >= 2 and bool(c["lib"]), "flat")
+        if r.get("outcome") != "ok":
+            run.property_failure("flat:%s:%s" % (r.get("outcome"), r.get("exc", "")), "expand() did not return normally: %r" % (r,), c)
+            continue
+        pa = r["page_ast"]
+        if len(pa) != 1 or isinstance(pa[0], int) or pa[0][0] != "T" or any(not isinstance(x, int) for x in pa[0][1][0]):
+            run.correspondence_break("a generated flat call was not read as one call", c, page_ast=pa)
+            continue
+        name = "".join(chr(x) for x in pa[0][1][0]).strip()
+        coq_cases.append("(%s, %s, %s, %s)" % (G.coq_lib([[t[0], t[1], t[2]] for t in r["lib_ast"]]), cstr(name),
+                                               clist(pa[0][1][1:], G.coq_enc, "enc"), cstr(r["out"])))
+        idx.append(i)
+    imports = IMPORTS + ["Model.FlatCall"]
+    notflat, errs = lib.coq_eval_failing("c04f0", imports, "list tpl * str * list enc * str", coq_cases,
+                                         "fun '(l, n, a, o) => flat_ok parser_functions l n a", chunk=350)
+    for e in errs:
+        run.correspondence_break("model evaluation failed (flat fragment)", None, error=e)
+    for b in notflat:
+        run.correspondence_break("a generated flat call is outside the fragment of Model.FlatCall.flat_ok", cases[idx[b]])
+    bad, errs = lib.coq_eval_failing("c04f", imports, "list tpl * str * list enc * str", coq_cases,
+                                     "fun '(l, n, a, o) => str_eqb (codes (result_of l n a)) o", chunk=350)
+    for e in errs:
+        run.correspondence_break("model evaluation failed (flat rule)", None, error=e)
+    for b in bad:
+        if b in notflat:
+            continue
+        c = cases[idx[b]]
+        want = lib.coq_eval_term(imports, "(fun '(l, n, a, o) => codes (result_of l n a)) (%s)" % coq_cases[b])
+        run.property_failure("c04:flat-call-differs-from-the-transclusion-rule",
+                             "expand(%r) with templates %r gave %r; the transclusion rule (Model.FlatCall.result_of) gives code points %s"
+                             % (c["page"], c["lib"], res[idx[b]]["out"], " ".join(want.split())[:300]), c)
+    run.extra["flat_calls_checked_against_the_rule"] = len(coq_cases)
+
+
 def run(run):
     run.rule = ("acyclic template libraries (<=5 templates, bodies from the expansion grammar: text atoms with interior/"
                 "leading/trailing blanks and newlines, {{{n}}}, {{{n|default}}}, positional/named/numeric-named/duplicate "
                 "arguments, nested calls, missing templates, #if/#ifeq/#switch incl. fall-through and #default, links) x pages "
                 "of nesting depth <=4; bodies wrapped in noinclude/onlyinclude/includeonly/comment arrangements; "
-                "non-trivial = at least two calls; distinct by JSON hash")
+                "non-trivial = at least two calls; distinct by JSON hash; plus flat calls (plain name and arguments - positional, "
+                "named, numeric, repeated, blank-padded, ending in line breaks - to a template of text and parameter references "
+                "with and without defaults, present or missing) compared with the fuel-free rule Model.FlatCall.result_of")
     run.trusted = [
         "Coq 8.16.1 kernel; vm_compute to evaluate Model.Expand on the encoded pages the implementation parsed",
         "axioms: none",
@@ -331,13 +402,14 @@ def run(run):
     for k, v in errs.items():
         run.correspondence_break("translator %s failed" % k, None, error=v)
     run.prove()
-    rc, out = lib.coq_make(["Gen/GenData.vo", "Model/Expand.vo", "Model/Body.vo"])
+    rc, out = lib.coq_make(["Gen/GenData.vo", "Model/Expand.vo", "Model/Body.vo", "Model/FlatCall.vo"])
     if rc != 0:
         run.correspondence_break("Gen/GenData.v, Model/Expand.v or Model/Body.v does not build", None, error=out[-1500:])
     check_template_body(run, run.rng, run.tier == "quick")
     n = 1200 if run.tier == "quick" else 20000
     cases = [make_case(run.rng) for _ in range(n)]
     run_cases(run, cases, "acyclic")
+    flat_rule(run, run.tier == "quick")
     run.extra["traces_validated_against_impl"] = run.evaluations
 
 
